@@ -1,6 +1,7 @@
 package gen
 
 import (
+	"math"
 	"math/rand"
 	"time"
 
@@ -138,4 +139,14 @@ func Respell(t *triple.Triple) *triple.Triple {
 		}
 	}
 	return MustTriple(t.Subject(), p, o)
+}
+
+// ExtremeLits are numeric literals that collide when handled as float64 or as
+// six-decimal text: neighbours above 2^53, the ends of the int64 range, floats
+// that agree to six decimals.
+var ExtremeLits = []*literal.Literal{
+	MustLit(literal.Int64, int64(9007199254740992)), MustLit(literal.Int64, int64(9007199254740993)),
+	MustLit(literal.Int64, int64(math.MaxInt64)), MustLit(literal.Int64, int64(math.MaxInt64-1)),
+	MustLit(literal.Int64, int64(math.MinInt64)), MustLit(literal.Int64, int64(math.MinInt64+1)),
+	MustLit(literal.Float64, 1.0000001), MustLit(literal.Float64, 1.0000002), MustLit(literal.Float64, 1e32), MustLit(literal.Float64, -1e-9),
 }
